@@ -341,3 +341,54 @@ func smallByName(name string) *Database {
 	}
 	return newDatabase(name, traces)
 }
+
+// ---------------------------------------------------------------------------------------------------------
+// K: attributes whose NAME collides with a word the transpiler treats specially (reserved.go) or that starts with a
+// scope word.  For every such name r: four span types - attribute r = "7" on a span called op1 lasting 3 s; r = "zzz"
+// on the same kind of span; r = "3000000000" on a span called zzz lasting 7 ns; no attribute r on a span called zzz
+// lasting 7 ns - so that reading `.duration` / `.name` / ... as the intrinsic selects different traces than reading
+// it as the attribute (7 vs 3e9 ns, "zzz" vs "op1"), and every multiset of <= 2 of them as one trace.  Every span
+// carries mark = "k".
+func keywordAttrNames() []string {
+	names, _ := reservedNames()
+	var out []string
+	for _, n := range names {
+		if n != "service.name" { // every stored span already has it (value svc): queried, not planted
+			out = append(out, n)
+		}
+	}
+	return append(out, "resource.q", "span.q")
+}
+
+func universalK() *Database {
+	type kt struct {
+		val  string
+		name string
+		dur  int64
+	}
+	pool := []kt{{"7", "op1", 3_000_000_000}, {"zzz", "op1", 3_000_000_000}, {"3000000000", "zzz", 7}, {"", "zzz", 7}}
+	var traces []Trace
+	id, slot := uint64(0), int64(0)
+	for _, r := range keywordAttrNames() {
+		for i := range pool {
+			for j := i - 1; j < len(pool); j++ { // j == i-1: the single-span trace
+				id++
+				tr := Trace{TID: 0xD000 + id}
+				kinds := []int{i}
+				if j >= i {
+					kinds = append(kinds, j)
+				}
+				for n, k := range kinds {
+					slot++
+					attrs := map[string]string{"mark": "k"}
+					if pool[k].val != "" {
+						attrs[r] = pool[k].val
+					}
+					tr.Spans = append(tr.Spans, Span{SID: n + 1, TS: T0 + slot*slotNS, Dur: pool[k].dur, Name: pool[k].name, Attrs: attrs})
+				}
+				traces = append(traces, tr)
+			}
+		}
+	}
+	return newDatabase("K", traces)
+}
